@@ -315,9 +315,10 @@ func runCase(cs *Case, ci int, pty *ptyPair, em *emu, home string) (alive bool) 
 		case "file":
 			path := filepath.Join(home, fmt.Sprintf("hist-%d-%d", ci, i))
 			os.Remove(path)
-			s, err := readline.NewHistoryFromFile(path)
-			if err != nil {
-				fatal("history file: %v", err)
+			os.WriteFile(path, nil, 0o600)
+			s, _ := readline.NewHistoryFromFile(path)
+			if s == nil {
+				fatal("history file: nil source")
 			}
 			src = s
 			defer os.Remove(path)
